@@ -170,6 +170,35 @@ SPECS += [
          props=["C19"], **SCHED_COMMON),
 ]
 
+# ---- data/grid_base.py : when two structured grids are compatible / equal (C15) -----------------------------------
+# the other grid is read as its attributes (`other.dim` …), `np.allclose` on two axes is the relation `close`
+AXES = "List[List[Rat]]"
+_OTHER = {"o_isGrid": "Bool", "o_isStructured": "Bool", "o_dim": "Int", "o_crs": "Opt[Obj]", "o_loc": "Obj",
+          "o_shape": "List[Int]", "o_rev": "Bool", "o_axes": AXES, "close": "Lean:(List Rat → List Rat → Bool)"}
+_GRIDF = {"dim": "Int", "crs": "Opt[Obj]", "data_location": "Obj", "data_shape": "List[Int]", "axes_reversed": "Bool", "axes": AXES}
+_OCONST = {"other.dim": ("o_dim", "Int"), "other.crs": ("o_crs", "Opt[Obj]"), "other.data_location": ("o_loc", "Obj"),
+           "other.data_shape": ("o_shape", "List[Int]"), "other.axes_reversed": ("o_rev", "Bool"), "other.axes": ("o_axes", AXES)}
+SPECS += [
+    dict(lean="StructuredGrid_compatible_with", path="data/grid_base.py", qual="StructuredGrid.compatible_with", group="GridCompat",
+         fields=_GRIDF, params={"check_location": "Bool"}, ignore_params=["other"], extra_params=_OTHER, ret="Bool",
+         consts=_OCONST,
+         conds={"isinstance(other, Grid)": "(o_isGrid = true)", "isinstance(other, StructuredGrid)": "(o_isStructured = true)",
+                "np.allclose(a, b)": "(close a b = true)"},
+         props=["C15"]),
+    dict(lean="StructuredGrid___eq__", path="data/grid_base.py", qual="StructuredGrid.__eq__", group="GridCompat",
+         fields={**_GRIDF, "axes_increase": "List[Bool]"}, ignore_params=["other"],
+         extra_params={**_OTHER, "o_inc": "List[Bool]"}, ret="Bool",
+         consts={**_OCONST, "other.axes_increase": ("o_inc", "List[Bool]")},
+         calls={"self.compatible_with": {"lean": "StructuredGrid_compatible_with",
+                                         "args": ["self.dim", "self.crs", "self.data_location", "self.data_shape", "self.axes_reversed",
+                                                  "self.axes", "True", "o_isGrid", "o_isStructured", "o_dim", "o_crs", "o_loc",
+                                                  "o_shape", "o_rev", "o_axes", "close"],
+                                         "argtypes": ["Int", "Opt[Obj]", "Obj", "List[Int]", "Bool", AXES, "Bool", "Bool", "Bool", "Int",
+                                                      "Opt[Obj]", "Obj", "List[Int]", "Bool", AXES, "Lean:(List Rat → List Rat → Bool)"],
+                                         "ret": "Bool"}},
+         props=["C15"]),
+]
+
 INTEG_COMMON = dict(
     path="adapters/time_integration.py", group="Integ", ret="Rat",
     calls={"self._unpack": "id", "interpolate": {"lean": "interpolate", "args": [0, 1, 2], "ret": "Rat"}},
